@@ -213,6 +213,8 @@ mod inner {
     /// [`Collect`]: crate::collect::Collect
     /// [cache-docs]: crate::callsite#rebuilding-cached-interest
     pub fn rebuild_interest_cache() {
+        #[cfg(tokio_rs_tracing_verif)]
+        let _verif = crate::verif::LockNote::new("dispatchers", true);
         let mut dispatchers = REGISTRY.dispatchers.write().unwrap();
         let callsites = &REGISTRY.callsites;
         rebuild_interest(callsites, &mut dispatchers);
@@ -229,17 +231,25 @@ mod inner {
     /// [`Callsite`]: crate::callsite::Callsite
     /// [reg-docs]: crate::callsite#registering-callsites
     pub fn register(registration: &'static Registration) {
+        #[cfg(tokio_rs_tracing_verif)]
+        let _verif = crate::verif::LockNote::new("dispatchers", false);
         let dispatchers = REGISTRY.dispatchers.read().unwrap();
         rebuild_callsite_interest(&dispatchers, registration.callsite);
+        #[cfg(tokio_rs_tracing_verif)]
+        crate::verif::point("callsite.register.before_push");
         REGISTRY.callsites.push(registration);
     }
 
     pub(crate) fn register_dispatch(dispatch: &Dispatch) {
+        #[cfg(tokio_rs_tracing_verif)]
+        let _verif = crate::verif::LockNote::new("dispatchers", true);
         let mut dispatchers = REGISTRY.dispatchers.write().unwrap();
         let callsites = &REGISTRY.callsites;
 
         dispatch.collector().on_register_dispatch(dispatch);
         dispatchers.push(dispatch.registrar());
+        #[cfg(tokio_rs_tracing_verif)]
+        crate::verif::point("callsite.register_dispatch.before_rebuild");
 
         rebuild_interest(callsites, &mut dispatchers);
     }
@@ -267,6 +277,8 @@ mod inner {
             Interest::never()
         };
 
+        #[cfg(tokio_rs_tracing_verif)]
+        crate::verif::point("callsite.before_set_interest");
         callsite.set_interest(interest)
     }
 
@@ -288,6 +300,8 @@ mod inner {
 
         callsites.for_each(|reg| rebuild_callsite_interest(dispatchers, reg.callsite));
 
+        #[cfg(tokio_rs_tracing_verif)]
+        crate::verif::point("callsite.before_set_max");
         LevelFilter::set_max(max_level);
     }
 }
@@ -436,10 +450,14 @@ impl LinkedList {
     }
 
     fn push(&self, registration: &'static Registration) {
+        #[cfg(all(tokio_rs_tracing_verif, feature = "std"))]
+        crate::verif::point("callsite.list.before_load");
         let mut head = self.head.load(Ordering::Acquire);
 
         loop {
             registration.next.store(head, Ordering::Release);
+            #[cfg(all(tokio_rs_tracing_verif, feature = "std"))]
+            crate::verif::point("callsite.list.before_cas");
 
             assert_ne!(
                 registration as *const _, head,
